@@ -27,11 +27,12 @@ else → `(val * factor).round().astype(np.int64)` (exact binary64: `F64`).
 `remove_bias` / `crosscov` (nitime/utils.py) as store transformers on exact rationals: which step
 makes a fresh buffer, which hands back / works on its argument (`ChainCfg`; the switches of the
 source as it stands are read off the translator's alias table `Generated.C16Alias`).
-Not modelled: dict-valued metadata contents.
+Metadata as a nested container graph, deep copy as a total `Except` function, the shallow-fallback variant: Model/C16Copy.lean (round 2).
 -/
 import Nitime.Model.C01
 import Nitime.Model.C17
 import Nitime.Generated.C16Alias
+import Nitime.Model.C16Copy
 
 namespace Nitime.C16
 open Nitime
@@ -405,6 +406,11 @@ def handle1 (cfg : Cfg) (args : List String) : String :=
 
 /-- every line is answered for the repaired and for the pinned behaviour: `<fixed> ## <current>` -/
 def handle (args : List String) : String :=
-  handle1 fixed args ++ " ## " ++ handle1 current args
+  match args with
+  | "seriescopy" :: rest =>
+    -- round 2: copy / arithmetic on a series whose metadata is a container graph (Model/C16Copy.lean);
+    -- `<the source: no handler> ## <the shallow-fallback variant>`
+    Copy.handle ("strict" :: rest) ++ " ## " ++ Copy.handle ("fallback" :: rest)
+  | _ => handle1 fixed args ++ " ## " ++ handle1 current args
 
 end Nitime.C16
